@@ -1038,7 +1038,7 @@ func (w *crashWorld) gchurn(cid, kind string, rounds int) string {
 	// the answer to a join that was sent already; a refused join (the port / route of the leaving member is still being
 	// released) is sent again
 	join := func(i int, sent bool) string {
-		for attempt := 0; attempt < 40; attempt++ {
+		for joinBy := time.Now().Add(3 * time.Second); !time.Now().After(joinBy); {
 			if !sent {
 				if w.ctlSend(pcs[i], mk(names[i])) != nil {
 					return "nologin"
